@@ -7,6 +7,7 @@ scanRawString and the comment loops).  The grammar (goyacc tables) is not modell
 part of the property is decided by the correspondence stream only.
 -/
 import Anko.Proofs.Scanner
+import Anko.Gen.ParserGen
 
 namespace Anko.C15
 open Anko.Scan
@@ -116,5 +117,10 @@ example : (lex "a /* x **/ + 1\n\"s\"").2 = none := by decide +kernel
 example : ((lex "a /* x **/ + 1\n\"s\"").1.map (·.pos)) = [⟨1, 1⟩, ⟨1, 12⟩, ⟨1, 14⟩, ⟨1, 15⟩, ⟨2, 1⟩, ⟨2, 4⟩] := by decide +kernel
 example : (lex "x = \"abc").2 = some (.msg "unexpected EOF", ⟨1, 5⟩) := by decide +kernel
 example : (lex "/* never closed").2 = some (.msg "unexpected EOF", ⟨1, 1⟩) := by decide +kernel
+
+/-- The parser that is compiled IS the one generated from the grammar file: re-running goyacc on
+parser/parser.go.y reproduces the committed parser/parser.go byte for byte (regenerated on every
+run), so facts read off the grammar are facts about the running parser. -/
+theorem committed_parser_is_generated_from_grammar : Gen.ParserGen.committedParserIsGenerated = true := by decide
 
 end Anko.C15
